@@ -1300,10 +1300,12 @@ def run(ctx, entry_points, module=None, draws=None, seconds=None, pristine=True,
     for name in order:
         groups.setdefault(eps[name].group, []).append(name)
 
-    for name in order:
+    # breadth first: every entry point gets its first draw before any gets its second (a wall guard that is reached under
+    # load then costs later draws, never whole entry points)
+    n_of = {name: max(1, int(nd * eps[name].draws)) for name in order}
+    for k, name in [(k, name) for k in range(max(n_of.values())) for name in order if k < n_of[name]]:
         ep = eps[name]
-        n = max(1, int(nd * ep.draws))
-        for k in range(n):
+        if True:
             if not guard.ok():
                 break
             d = base + k
@@ -1378,7 +1380,7 @@ def run(ctx, entry_points, module=None, draws=None, seconds=None, pristine=True,
                     for bi, (label, _) in enumerate(_bad_list(ep, pos, good[pos])):
                         if not guard.ok() or (name, "failed-call") in failed:
                             break
-                        if k > 0 and not (thorough or ctx.boost > 1) and (bi + k + base) % 3:
+                        if k > (1 if ctx.boost > 1 else 0) and not thorough and (bi + k + base) % 3:
                             continue  # quick: the full list on the first draw, a rotating third on the others
                         if (name, pos, label) in SLOW:
                             ctx.count(f"hist:failed-call:slow-bad-call-not-repeated:{name}")
@@ -1449,88 +1451,94 @@ def _key(it):
 
 
 def _interleave(ctx, eps, module, base, nd, groups, guard, report):
+    """family by family (a family = one draw of one entry point with its near variants and the same arguments through the
+    other entry points of the domain): the members alone, then the module's own variants against each other, base against
+    variant both ways, a seeded sample of the rest; afterwards a seeded sample of pairs across families.  A guard that is
+    reached under load costs later families, never the close pairs of the first ones."""
     thorough = ctx.thorough()
     srv = Pristine(module).start()
     pools = {g: _pool(eps, names, base, nd, thorough, ctx.boost) for g, names in groups.items()}
     total = sum(len(v) for v in pools.values()) or 1
     budget_pairs = ctx.budget(300, 6000)
+    ismod = lambda it: str(it.get("near", "")).startswith("module: ")  # noqa: E731
+
+    def alone_of(it, alone):
+        k = _key(it)
+        if k not in alone:
+            res = srv.ask({"seq": [it]})
+            alone[k] = None if ("error" in res or res["answers"][0] == "n/a") else res["answers"][0]
+            if alone[k] is not None:
+                ctx.count(f"hist:interleave:alone:{it['ep']}")
+        return alone[k]
+
+    def pair(a, b, alone):
+        if alone_of(a, alone) is None or alone_of(b, alone) is None:
+            return
+        res = srv.ask({"seq": [a, b, a]})
+        if "error" in res:
+            ctx.count("hist:interleave:child-error")
+            return
+        ctx.count(f"hist:interleave:{b['ep']}")
+        ctx.case(("hist", "interleave", _key(a), _key(b)))
+        ans, heldc = res["answers"], res["held"]
+        epb, epa = eps[b["ep"]], eps[a["ep"]]
+        fail = None
+        if ans[1] != alone[_key(b)]:
+            fail = (epb, [a, b], f"{epb.name}: the request is answered differently when another call ({epa.name}) was made before it than when it is the first call in a process that has only imported the library",
+                    alone[_key(b)], ans[1])
+        elif ans[2] != alone[_key(a)]:
+            fail = (epa, [a, b, a], f"{epa.name}: the same request is answered differently after a call of {epb.name} in between", alone[_key(a)], ans[2])
+        elif heldc[0] != ans[0] or heldc[1] != ans[1]:
+            i = 0 if heldc[0] != ans[0] else 1
+            fail = ((epa, epb)[i], [a, b, a], f"{(epa, epb)[i].name}: a result the caller kept changed while the later calls of the sequence were made", ans[i], heldc[i])
+        if fail is not None:
+            ep, seq, what, exp, act = fail
+            args_desc = []
+            for s_ in seq:
+                try:
+                    _, a_ = materialise(eps, s_)
+                    args_desc.append(f"{s_['ep']}({short(canon(a_), 200)})")
+                except Exception:  # noqa
+                    args_desc.append(_key(s_))
+            report("interleave", ep, {"seq": seq, "alone": seq[-1] if len(seq) == 2 else seq[0]},
+                   {"what": what, "expected": exp, "actual": act,
+                    "steps": ["in a process forked from an interpreter that has imported the library and made no call:"] + args_desc + ["compared with the last request made alone in such a process"]})
+
     try:
         for gname, names in groups.items():
             items = pools[gname]
             if not items:
                 continue
-            alone = {}
-            for it in items:
-                if not guard.ok():
-                    return
-                res = srv.ask({"seq": [it]})
-                if "error" in res or res["answers"][0] == "n/a":
-                    continue
-                alone[_key(it)] = res["answers"][0]
-                ctx.count(f"hist:interleave:alone:{it['ep']}")
-            live = [it for it in items if _key(it) in alone]
-            # pairs: (i then j): same draw (near variants of one another, same content through another entry point) first, then a seeded sample
             rng = random.Random(f"hist-pairs:{base}:{gname}")
-            pairs, prio = [], []
-            by_draw = {}
-            for it in live:
-                by_draw.setdefault((it.get("as") or it["ep"], it["draw"]), []).append(it)
-            for fam in by_draw.values():
-                b0 = fam[0]
-                for it in fam[1:]:
-                    pairs.append((b0, it))
-                    pairs.append((it, b0))
-                ismod = lambda it: str(it.get("near", "")).startswith("module: ")  # noqa: E731
-                extra = [(a, b) for a in fam[1:] for b in fam[1:] if a is not b]
-                first = [x for x in extra if ismod(x[0]) and ismod(x[1])]  # the module's own adversarially close variants against each other
-                rest_f = [x for x in extra if not (ismod(x[0]) and ismod(x[1]))]
-                rng.shuffle(first)
-                rng.shuffle(rest_f)
-                prio += first[: ctx.budget(30, 400)]
-                pairs += rest_f[: ctx.budget(6, 60)]
-            rest = [(a, b) for a in live for b in live if a is not b]
-            rng.shuffle(rest)
             lim = max(16, budget_pairs * len(items) // total)
-            close = pairs
-            rng.shuffle(close)
-            rng.shuffle(prio)
-            pairs = prio[: lim // 2] + close
-            pairs = pairs[: max(8, lim * 3 // 4)]
-            pairs += rest[: max(4, lim - len(pairs))]
-            for a, b in pairs[:lim]:
+            alone = {}
+            fams = {}
+            for it in items:
+                fams.setdefault((it.get("as") or it["ep"], it["draw"]), []).append(it)
+            per_fam = max(6, (lim * 3 // 4) // max(1, len(fams)))
+            done = 0
+            for fam in fams.values():
+                b0 = fam[0]
+                mods = [x for x in fam[1:] if ismod(x)]
+                first = [(x, y) for x in mods for y in mods if x is not y]
+                rng.shuffle(first)
+                around = [(b0, x) for x in fam[1:]] + [(x, b0) for x in fam[1:]]
+                rng.shuffle(around)
+                rest_f = [(x, y) for x in fam[1:] for y in fam[1:] if x is not y and not (ismod(x) and ismod(y))]
+                rng.shuffle(rest_f)
+                todo = first[: per_fam // 2] + around[: max(2, per_fam // 3)]
+                todo += rest_f[: max(0, per_fam - len(todo))]
+                for x, y in todo[:per_fam]:
+                    if not guard.ok():
+                        return
+                    pair(x, y, alone)
+                    done += 1
+            cross = [(x, y) for x in items for y in items if x is not y and (x.get("as") or x["ep"], x["draw"]) != (y.get("as") or y["ep"], y["draw"])]
+            rng.shuffle(cross)
+            for x, y in cross[: max(4, lim - done)]:
                 if not guard.ok():
                     return
-                res = srv.ask({"seq": [a, b, a]})
-                if "error" in res:
-                    ctx.count("hist:interleave:child-error")
-                    continue
-                ctx.count(f"hist:interleave:{b['ep']}")
-                ctx.case(("hist", "interleave", _key(a), _key(b)))
-                ans, heldc = res["answers"], res["held"]
-                epb, epa = eps[b["ep"]], eps[a["ep"]]
-                fail = None
-                if ans[1] != alone[_key(b)]:
-                    fail = (epb, [a, b], f"{epb.name}: the request is answered differently when another call ({epa.name}) was made before it than when it is the first call in a process that has only imported the library",
-                            alone[_key(b)], ans[1])
-                elif ans[2] != alone[_key(a)]:
-                    fail = (epa, [a, b, a], f"{epa.name}: the same request is answered differently after a call of {epb.name} in between",
-                            alone[_key(a)], ans[2])
-                elif heldc[0] != ans[0] or heldc[1] != ans[1]:
-                    i = 0 if heldc[0] != ans[0] else 1
-                    fail = ((epa, epb)[i], [a, b, a], f"{(epa, epb)[i].name}: a result the caller kept changed while the later calls of the sequence were made",
-                            ans[i], heldc[i])
-                if fail is not None:
-                    ep, seq, what, exp, act = fail
-                    args_desc = []
-                    for s in seq:
-                        try:
-                            e_, a_ = materialise(eps, s)
-                            args_desc.append(f"{s['ep']}({short(canon(a_), 200)})")
-                        except Exception:  # noqa
-                            args_desc.append(_key(s))
-                    report("interleave", ep, {"seq": seq, "alone": seq[-1] if len(seq) == 2 else seq[0]},
-                           {"what": what, "expected": exp, "actual": act,
-                            "steps": ["in a process forked from an interpreter that has imported the library and made no call:"] + args_desc + ["compared with the last request made alone in such a process"]})
+                pair(x, y, alone)
     finally:
         srv.stop()
 
